@@ -19,6 +19,7 @@ import (
 	"net/url"
 	"os"
 	"path/filepath"
+	"runtime"
 	"sort"
 	"strings"
 	"sync"
@@ -143,6 +144,8 @@ const (
 	kFile   kind = "FileSink"
 	kWriter kind = "writer.Sink"
 	kChan   kind = "ChannelSink"
+	// two distinct FileSink nodes configured with the same Path and FileName (no rotation): not part of the random catalogue
+	kFileSame kind = "FileSink(same file)"
 )
 
 var filterKinds = []kind{kFilter, kEnc, kGated}
@@ -176,11 +179,17 @@ type world struct {
 	pmu      sync.Mutex
 	sent     int64
 	sendErrs int64
+	// per sink: for every pipeline that ends in it, whether an encrypt.Filter sits ahead of the formatter
+	sinkFeeds map[string][]bool
+	fileSinks map[string]*el.FileSink
+	amu       sync.Mutex
+	acked     map[int]bool
 }
 
 func newWorld(dir string) *world {
 	b, _ := el.NewBroker()
-	return &world{b: b, dir: dir, nodes: map[string]el.Node{}, writers: map[string]*checkedWriter{}, stop: make(chan struct{})}
+	return &world{b: b, dir: dir, nodes: map[string]el.Node{}, writers: map[string]*checkedWriter{}, stop: make(chan struct{}),
+		sinkFeeds: map[string][]bool{}, fileSinks: map[string]*el.FileSink{}, acked: map[int]bool{}}
 }
 
 func signer(tag string) cloudevents.Signer {
@@ -190,7 +199,7 @@ func signer(tag string) cloudevents.Signer {
 // instance name -> node (created once, shared by every pipeline that names it)
 func (w *world) node(k kind, inst int, fmtFor string) (el.NodeID, el.Node) {
 	name := fmt.Sprintf("%s#%d", k, inst)
-	if k == kFile || k == kWriter {
+	if k == kFile || k == kWriter || k == kFileSame {
 		name += "/" + fmtFor
 	}
 	if n, ok := w.nodes[name]; ok {
@@ -220,6 +229,10 @@ func (w *world) node(k kind, inst int, fmtFor string) (el.NodeID, el.Node) {
 		n = f
 	case kFile:
 		f := &el.FileSink{Path: filepath.Join(w.dir, fmt.Sprintf("fs%d-%s", inst, fmtFor)), FileName: "ev.log", MaxBytes: 600, MaxFiles: 3, Format: fmtFor}
+		w.files = append(w.files, f)
+		n = f
+	case kFileSame:
+		f := &el.FileSink{Path: filepath.Join(w.dir, "same-file"), FileName: "ev.log", Format: fmtFor}
 		w.files = append(w.files, f)
 		n = f
 	case kWriter:
@@ -269,9 +282,23 @@ func (w *world) addPipeline(id string, ps pipeSpec) {
 			fmtFor = formatOf(kind(k))
 		}
 	}
+	encAhead, seenFmt := false, false
 	for i, k := range ps.Kinds {
-		nid, _ := w.node(kind(k), ps.Insts[i], fmtFor)
+		nid, n := w.node(kind(k), ps.Insts[i], fmtFor)
 		ids = append(ids, nid)
+		switch kind(k) {
+		case kEnc:
+			if !seenFmt {
+				encAhead = true
+			}
+		case kJSON, kJSONFF, kCEJ, kCET:
+			seenFmt = true
+		case kFile, kFileSame, kWriter:
+			w.sinkFeeds[string(nid)] = append(w.sinkFeeds[string(nid)], encAhead)
+			if f, ok := n.(*el.FileSink); ok {
+				w.fileSinks[string(nid)] = f
+			}
+		}
 	}
 	if err := w.b.RegisterPipeline(el.Pipeline{PipelineID: el.PipelineID(id), EventType: el.EventType(ps.Type), NodeIDs: ids}); err != nil {
 		panic(fmt.Sprintf("pipeline %s %v: %v", id, ps, err))
@@ -292,14 +319,24 @@ func (w *world) guard(name string, f func()) {
 func (w *world) payload(r *hc.Rand, i int, gate bool) interface{} {
 	switch x := r.Intn(20); {
 	case gate && x < 8:
-		return &GP{Id: fmt.Sprintf("g%d", i/3), Flush: i%3 == 2, Sec: "s3cr3t"}
+		return &GP{Id: fmt.Sprintf("g%d", i/3), Flush: i%3 == 2, Sec: fmt.Sprintf("CANARY-SEC-%d", i)}
 	case x < 11:
-		return &EP{Sens: "sensitive", id: fmt.Sprintf("ev-%d", i)}
+		return &EP{Sens: fmt.Sprintf("CANARY-SENS-%d", i), id: fmt.Sprintf("ev-%d", i)}
 	case x == 11 && len(w.encs) > 0:
 		return &RP{w: newWrapper()}
 	default:
-		return &P{Pub: "pub", Sec: "secret", Sens: "sens", Hm: "hm", N: i}
+		return plainP(i)
 	}
+}
+
+// every protected field of every event carries a canary that names the event
+func plainP(i int) *P {
+	return &P{Pub: fmt.Sprintf("pub-%d", i), Sec: fmt.Sprintf("CANARY-SEC-%d", i), Sens: fmt.Sprintf("CANARY-SENS-%d", i), Hm: fmt.Sprintf("CANARY-HM-%d", i), N: i}
+}
+
+type hangRec struct {
+	Scenario scenario `json:"scenario"`
+	Dump     string   `json:"goroutine_dump"`
 }
 
 type scenario struct {
@@ -308,6 +345,14 @@ type scenario struct {
 	Senders  int        `json:"senders"`
 	PerSend  int        `json:"events_per_sender"`
 	Controls []string   `json:"controls"`
+	// ExactOnce: only plain payloads, every acknowledged event must be in the file sinks' file exactly once and whole
+	ExactOnce bool `json:"exact_once,omitempty"`
+	// PlainOnly: only plain payloads with canaries (no gateable / rotation / per-event-wrapper payloads)
+	PlainOnly bool `json:"plain_only,omitempty"`
+	// Alternate: that many rounds of strictly sequential Sends, one per event type in turn (Broker.Reopen every 7th), first
+	Alternate int `json:"alternate,omitempty"`
+	// NeedPlain: the sinks not behind an encrypt filter must show the plaintext canaries (each sink renders ITS pipeline's view)
+	NeedPlain bool `json:"need_plain,omitempty"`
 }
 
 type result struct {
@@ -352,6 +397,33 @@ func runScenario(sc scenario, seed uint64, dir string) result {
 	}
 	sort.Strings(tlist)
 	ctx := context.Background()
+	send := func(rs *hc.Rand, t string, idx int) {
+		var pl interface{}
+		if sc.ExactOnce || sc.PlainOnly {
+			pl = plainP(idx)
+		} else {
+			pl = w.payload(rs, idx, hasGated)
+		}
+		_, err := w.b.Send(ctx, el.EventType(t), pl)
+		atomic.AddInt64(&w.sent, 1)
+		if err != nil {
+			atomic.AddInt64(&w.sendErrs, 1)
+		} else if sc.ExactOnce {
+			w.amu.Lock()
+			w.acked[idx] = true
+			w.amu.Unlock()
+		}
+	}
+	w.guard("alternation", func() {
+		for j := 0; j < sc.Alternate; j++ {
+			for ti, t := range tlist {
+				send(r, t, 1000000+j*len(tlist)+ti)
+			}
+			if j%7 == 6 {
+				_ = w.b.Reopen(ctx)
+			}
+		}
+	})
 	var senders sync.WaitGroup
 	for s := 0; s < sc.Senders; s++ {
 		senders.Add(1)
@@ -360,12 +432,7 @@ func runScenario(sc scenario, seed uint64, dir string) result {
 			defer senders.Done()
 			w.guard("sender", func() {
 				for i := 0; i < sc.PerSend; i++ {
-					t := tlist[rs.Intn(len(tlist))]
-					_, err := w.b.Send(ctx, el.EventType(t), w.payload(rs, s*sc.PerSend+i, hasGated))
-					atomic.AddInt64(&w.sent, 1)
-					if err != nil {
-						atomic.AddInt64(&w.sendErrs, 1)
-					}
+					send(rs, tlist[rs.Intn(len(tlist))], s*sc.PerSend+i)
 				}
 			})
 		}(s)
@@ -456,6 +523,86 @@ func runScenario(sc scenario, seed uint64, dir string) result {
 			}
 		}
 	}
+	// each sink's lines are the rendering of ITS pipeline's view: behind an encrypt filter no protected canary, elsewhere plaintext
+	outputs := map[string][]byte{}
+	for name, cw := range w.writers {
+		outputs[name] = cw.buf.Bytes()
+	}
+	for name, f := range w.fileSinks {
+		matches, _ := filepath.Glob(filepath.Join(f.Path, "*"))
+		var all []byte
+		for _, m := range matches {
+			data, _ := os.ReadFile(m)
+			all = append(all, data...)
+		}
+		outputs[name] = all
+	}
+	for name, data := range outputs {
+		feeds := w.sinkFeeds[name]
+		allEnc, noneEnc := len(feeds) > 0, true
+		for _, e := range feeds {
+			allEnc = allEnc && e
+			noneEnc = noneEnc && !e
+		}
+		if allEnc {
+			for _, c := range []string{"CANARY-SEC-", "CANARY-SENS-", "CANARY-HM-"} {
+				if i := bytes.Index(data, []byte(c)); i >= 0 {
+					end := i + 24
+					if end > len(data) {
+						end = len(data)
+					}
+					res.Integrity = append(res.Integrity, fmt.Sprintf("%s: plaintext of a protected field (%q...) in the output of a sink that is only fed through an encrypt.Filter", name, data[i:end]))
+					break
+				}
+			}
+			if len(data) > 0 && sc.NeedPlain && !bytes.Contains(data, []byte("[REDACTED]")) {
+				res.Integrity = append(res.Integrity, fmt.Sprintf("%s: no redaction marker in the output of a sink behind an encrypt.Filter", name))
+			}
+		}
+		if noneEnc && sc.NeedPlain && len(feeds) > 0 && len(data) > 0 && !bytes.Contains(data, []byte("CANARY-SEC-")) {
+			res.Integrity = append(res.Integrity, fmt.Sprintf("%s: the plain pipeline's sink does not show the plaintext", name))
+		}
+	}
+	if sc.ExactOnce {
+		// every acknowledged event exactly once and whole in the file the FileSinks share
+		counts := map[int]int{}
+		seenPath := map[string]bool{}
+		for _, f := range w.fileSinks {
+			if seenPath[f.Path] {
+				continue
+			}
+			seenPath[f.Path] = true
+			matches, _ := filepath.Glob(filepath.Join(f.Path, "*"))
+			for _, m := range matches {
+				data, _ := os.ReadFile(m)
+				dec := json.NewDecoder(bytes.NewReader(data))
+				for dec.More() {
+					var doc struct {
+						Payload struct{ N int }
+					}
+					if err := dec.Decode(&doc); err != nil {
+						break // reported above as "not a sequence of JSON documents"
+					}
+					counts[doc.Payload.N]++
+				}
+			}
+		}
+		missing, dup := 0, 0
+		ex := -1
+		for idx := range w.acked {
+			switch c := counts[idx]; {
+			case c == 0:
+				missing++
+				ex = idx
+			case c > 1:
+				dup++
+				ex = idx
+			}
+		}
+		if missing+dup > 0 {
+			res.Integrity = append(res.Integrity, fmt.Sprintf("FileSink(same file): of %d acknowledged events %d are missing from the file and %d are in it more than once (e.g. event %d)", len(w.acked), missing, dup, ex))
+		}
+	}
 	res.Sent, res.SendErrs, res.ChanGot, res.Panics = w.sent, w.sendErrs, w.chanGot, w.panics
 	for p := range pairs {
 		res.Pairs = append(res.Pairs, p)
@@ -489,6 +636,13 @@ func focused(per int) []scenario {
 		// a gated filter shared by two pipelines and wired to the same broker, flushed from outside
 		{Name: "gated-shared", Senders: 4, PerSend: per, Controls: []string{"gated-flushall"},
 			Pipes: []pipeSpec{{Type: "t1", Kinds: k(kGated, kJSON, kWriter), Insts: []int{0, 0, 0}}, {Type: "t2", Kinds: k(kGated, kJSONFF, kWriter), Insts: []int{0, 0, 0}}}},
+		// the same event through a bare formatter and through encrypt -> formatter: each sink must render its own pipeline's view
+		{Name: "enc-vs-plain", Senders: 4, PerSend: per, NeedPlain: true, PlainOnly: true,
+			Pipes: []pipeSpec{{Type: "t1", Kinds: k(kJSON, kWriter), Insts: []int{0, 0}}, {Type: "t1", Kinds: k(kEnc, kJSON, kWriter), Insts: []int{0, 1, 1}},
+				{Type: "t1", Kinds: k(kFilter, kEnc, kJSONFF, kFile), Insts: []int{0, 0, 0, 0}}}},
+		// two distinct FileSink nodes on the same file: sequential alternation with Reopen in between, then concurrent senders
+		{Name: "filesink-same-file", Senders: 4, PerSend: per / 2, Alternate: 40, ExactOnce: true, Controls: []string{"broker-reopen"},
+			Pipes: []pipeSpec{{Type: "t1", Kinds: k(kJSON, kFileSame), Insts: []int{0, 0}}, {Type: "t2", Kinds: k(kFilter, kJSON, kFileSame), Insts: []int{0, 0, 1}}}},
 		// one writer sink and one channel sink under 8 senders, two formatters for one type
 		{Name: "sinks-shared", Senders: 8, PerSend: per, Controls: []string{"thresholds", "broker-reopen"},
 			Pipes: []pipeSpec{{Type: "t1", Kinds: k(kJSON, kWriter), Insts: []int{0, 0}}, {Type: "t1", Kinds: k(kJSONFF, kWriter), Insts: []int{0, 0}}, {Type: "t1", Kinds: k(kCEJ, kChan), Insts: []int{0, 0}}}},
@@ -551,6 +705,7 @@ func main() {
 	only := flag.String("only", "", "comma separated scenario names to run (focused search)")
 	replay := flag.String("replay", "", "re-run the scenario of a replay file")
 	list := flag.Bool("list", false, "print the scenarios (JSON lines) instead of running them")
+	wd := flag.Duration("watchdog", 60*time.Second, "per-scenario watchdog")
 	flag.Parse()
 
 	r := hc.NewRand(hc.Seed())
@@ -596,12 +751,38 @@ func main() {
 		return
 	}
 	var results []result
+	var hung *hangRec
 	pairs := map[string]bool{}
 	var sent int64
 	docs := 0
 	var integrity, panics []string
 	for i, sc := range scs {
-		res := runScenario(sc, hc.Seed()*1000+uint64(i), filepath.Join(*out, "files", sc.Name))
+		// per-scenario watchdog: a wedged library must not wedge the check
+		var res result
+		resCh := make(chan result, 1)
+		go func() { resCh <- runScenario(sc, hc.Seed()*1000+uint64(i), filepath.Join(*out, "files", sc.Name)) }()
+		select {
+		case res = <-resCh:
+		case <-time.After(*wd):
+			buf := make([]byte, 4<<20)
+			n := runtime.Stack(buf, true)
+			var keep []string
+			for _, g := range strings.Split(string(buf[:n]), "\n\n") {
+				if strings.Contains(g, "hashicorp/eventlogger") && (strings.Contains(g, "sync.") || strings.Contains(g, "chan ") || strings.Contains(g, "select")) {
+					if len(g) > 2500 {
+						g = g[:2500] + "\n\t..."
+					}
+					keep = append(keep, g)
+				}
+			}
+			if len(keep) > 10 {
+				keep = keep[:10]
+			}
+			hung = &hangRec{Scenario: sc, Dump: strings.Join(keep, "\n\n")}
+		}
+		if hung != nil {
+			break
+		}
 		results = append(results, res)
 		for _, p := range res.Pairs {
 			pairs[p] = true
@@ -624,7 +805,7 @@ func main() {
 	// all ordered neighbour pairs the pipeline grammar allows
 	total := len(filterKinds)*len(filterKinds) + len(filterKinds)*len(fmtKinds) + len(fmtKinds)*len(sinkKinds)
 	summary := map[string]interface{}{"scenarios": len(results), "results": results, "events_sent": sent, "documents_in_sinks": docs,
-		"integrity_failures": integrity, "panics": panics, "neighbour_pairs_covered": pl, "neighbour_pairs_possible": total, "seed": hc.Seed()}
+		"integrity_failures": integrity, "panics": panics, "neighbour_pairs_covered": pl, "neighbour_pairs_possible": total, "seed": hc.Seed(), "hung": hung}
 	js, _ := json.MarshalIndent(summary, "", " ")
 	os.WriteFile(filepath.Join(*out, "stress_summary.json"), js, 0o644)
 	fmt.Printf("stressh: %d scenarios, %d events, %d documents, %d/%d neighbour pairs, %d integrity failures, %d panics\n",
